@@ -3,8 +3,10 @@
     [Z], [nat] stay as extracted inductives. *)
 Require Extraction.
 Require Import ExtrOcamlBasic.
-From PT Require Import Bits PrefixN Machine Trie Views SetOps Inst EntryApi InstEntry ParModel InstPar.
+From PT Require Import Bits PrefixN Machine Trie Views SetOps Inst EntryApi InstEntry ParModel InstPar Arena Arena2 InstArena.
 Separate Extraction Bits PrefixN Machine Trie Views SetOps Inst InstEntry.t_entry_chain InstEntry.t_occupied_reuse InstEntry.t_closure_panics
   InstPar.t_alias_report InstPar.t_par_jobs InstPar.t_par_result
+  InstArena.t_a_empty InstArena.t_a_insert InstArena.t_a_remove InstArena.t_a_remove_keep_tree InstArena.t_a_entries
+  InstArena.t_a_clear InstArena.t_a_remove_children InstArena.t_a_retain InstArena.t_a_get_mut InstArena.t_a_vm_set InstArena.t_a_vm_remove InstArena.t_a_vm_value_mut InstArena.t_a_entry_insert
   BinNat.N.of_nat BinNat.N.to_nat BinInt.Z.of_N BinInt.Z.to_N BinNat.N.testbit BinNat.N.succ_double BinNat.N.double
   BinNat.N.div BinNat.N.modulo BinInt.Z.modulo BinInt.Z.pow BinInt.Z.ltb BinInt.Z.add BinInt.Z.sub BinNat.N.compare BinNat.N.ltb BinNat.N.leb BinNat.N.eqb.
